@@ -17,17 +17,16 @@ RULE = "E1.projection"
 MOD = "block_diagonalization"
 
 
-def _returns_by_case(f: ast.FunctionDef):
-    """Enumerate syntactic paths; classify the decisive conditions and the return form."""
+def _returns_by_case(f: ast.FunctionDef, scope=None):
+    """Enumerate resolved paths (locals inlined, helpers expanded; the value parameter keeps its name);
+    -> [(conditions as (canonical text, truth value), returned expression)]."""
+    from .sem import ctext, outcomes
+    params = [a.arg for a in f.args.args]
     out = []
-    for p in enum_paths(f.body, lambda n: None):
-        if p.end != "return":
+    for o in outcomes(f.body, scope, env={}, opaque=tuple(params[:1])):
+        if o.kind != "return":
             raise AnalysisError(RULE, f"{f.name}: path without return")
-        conds = []
-        for t, val, _free in p.choices:
-            txt = norm(t)
-            conds.append((txt, val))
-        out.append((conds, p.end_node.value))
+        out.append(([(ctext(t), val) for t, val in o.conds], o.value))
     return out
 
 
@@ -70,9 +69,14 @@ def _mask_use(expr: ast.AST):
     if isinstance(expr, ast.Call) and (call_name(expr) or "").endswith("apply_mask_to_operator"):
         kw = {k.arg: k.value for k in expr.keywords}
         a = expr.args
-        if len(a) >= 2 and norm(a[0]) == "x" and isinstance(a[1], ast.Subscript) and norm(a[1].slice) == "index[0]" \
-                and "keep" in kw and isinstance(kw["keep"], ast.Constant):
-            return ("apply_mask(x, M)", norm(a[1].value), bool(kw["keep"].value))
+        if len(a) >= 2 and norm(a[0]) == "x" and isinstance(a[1], ast.Subscript) and norm(a[1].slice) == "index[0]" and "keep" in kw:
+            k = kw["keep"]
+            if isinstance(k, ast.Constant):
+                return ("apply_mask(x, M)", norm(a[1].value), bool(k.value))
+            if isinstance(k, ast.Name):
+                return ("apply_mask(x, M)", norm(a[1].value), ("flag", k.id, True))
+            if isinstance(k, ast.UnaryOp) and isinstance(k.op, ast.Not) and isinstance(k.operand, ast.Name):
+                return ("apply_mask(x, M)", norm(a[1].value), ("flag", k.operand.id, False))
     return ("other:" + norm(expr)[:60], norm(expr)[:60], None)
 
 
@@ -83,7 +87,9 @@ def rule_projection_pairs(rep: Report, repo: Repo):
     offs = [d for d in nested_defs(f) if d.name == "offdiag"]
     if len(diags) != len(offs) or not diags:
         raise AnalysisError(RULE, f"{len(diags)} diag / {len(offs)} offdiag closures")
-    rep.floor(RULE, "(diag, offdiag) closure pairs", len(diags), 3)
+    rep.floor(RULE, "(diag, offdiag) closure pairs", len(diags), 2)
+    from .sem import Scope
+    scope = Scope(repo.trees[MOD], f)
     for k, (d, o) in enumerate(zip(diags, offs)):
         # same enclosing block
         if d._parent is not o._parent:
@@ -92,7 +98,7 @@ def rule_projection_pairs(rep: Report, repo: Repo):
         summary = {}
         for name, fn in (("diag", d), ("offdiag", o)):
             inside, outside, keysets = {}, [], set()
-            for conds, val in _returns_by_case(fn):
+            for conds, val in _returns_by_case(fn, scope):
                 is_out = any(t.startswith("index[0] not in ") and v and " or " not in t for t, v in conds)
                 ks = [t.split(" not in ")[1].split(" or ")[0] for t, v in conds if t.startswith("index[0] not in ")]
                 keysets |= set(ks)
@@ -150,6 +156,24 @@ def rule_projection_pairs(rep: Report, repo: Repo):
                 rep.check(same_form and comp is True, RULE,
                           f"{pair} [{kind}]: diag uses mask `{a[1]}`, offdiag uses the complementary mask `{b[1]}` in the same operation",
                           f"forms {a[0]} / {b[0]}; complement: {comp}", loc(d))
+            elif isinstance(a[2], tuple) or isinstance(b[2], tuple):
+                # the keep flag is a run-time flag F: diag must use F and offdiag `not F` (or the reverse), and every
+                # construction branch must set F according to what its masks list
+                okf = isinstance(a[2], tuple) and isinstance(b[2], tuple) and a[2][1] == b[2][1] and a[2][2] != b[2][2]
+                rep.check(same_form and a[1] == b[1] and okf, RULE,
+                          f"{pair} [{kind}]: same operator mask `{a[1]}` with opposite keep flags (diag keep={a[2]}, offdiag keep={b[2]})",
+                          "", loc(d))
+                if okf:
+                    F, diag_pos = a[2][1], a[2][2]
+                    branches = _flag_branches(d._parent, F, a[1])
+                    if not branches:
+                        raise AnalysisError(RULE, f"construction of flag `{F}` / masks `{a[1]}` not understood")
+                    for meaning, fval, node in branches:
+                        want = {"eliminate": False, "keep": True}.get(meaning)
+                        got = fval if diag_pos else (not fval)
+                        rep.check(want is not None and got == want, RULE,
+                                  f"{pair} [{kind}]: mask `{a[1]}` lists elements to {meaning}; diag must call with keep={want}",
+                                  f"`{F}` is {fval} in this construction branch, diag passes keep={'' if diag_pos else 'not '}{F}", loc(node))
             else:
                 rep.check(same_form and a[1] == b[1] and a[2] != b[2], RULE,
                           f"{pair} [{kind}]: same operator mask `{a[1]}` with opposite keep flags (diag keep={a[2]}, offdiag keep={b[2]})",
@@ -165,6 +189,27 @@ def rule_projection_pairs(rep: Report, repo: Repo):
             idx = [n for n in own_nodes(fn) if isinstance(n, ast.Assign) and norm(n.targets[0]) == "x"]
             ok = len(idx) == 1 and norm(idx[0].value) == "x[index] if isinstance(x, BlockSeries) else x"
             rep.check(ok, RULE, f"{pair}: {fn.name} reads a series argument at the requested index", "", loc(fn))
+
+
+def _flag_branches(owner, flag: str, mask: str):
+    """Construction branches (arms of one `if`) that assign both the mask dictionary and the boolean flag:
+    -> [(meaning of the masks, flag value, node)]."""
+    out = []
+    for field in ("body", "orelse"):
+        for s in getattr(owner, field, []) or []:
+            if not isinstance(s, ast.If):
+                continue
+            for arm in (s.body, s.orelse):
+                fl = [n for n in arm if isinstance(n, ast.Assign) and any(norm(t) == flag for t in n.targets)]
+                mk = [n for n in arm if isinstance(n, ast.Assign) and any(norm(t) == mask for t in n.targets)]
+                if not fl and not mk:
+                    continue
+                if len(fl) != 1 or len(mk) != 1 or not (isinstance(fl[0].value, ast.Constant) and isinstance(fl[0].value.value, bool)):
+                    return []
+                t = norm(mk[0].value)
+                meaning = "keep" if "equal_eigs" in t else ("eliminate" if "fully_diagonalize.items()" in t else None)
+                out.append((meaning, fl[0].value.value, fl[0]))
+    return out
 
 
 def _assignments_in(block_owner, name):
